@@ -251,6 +251,11 @@ enum AOp {
     Create(usize),
     Drop(usize),
     Filter { f: usize, v: V, tracked: bool },
+    /// 51 tracked queries on the field (so that it counts as frequently queried), then `auto_tune()`: index creation by
+    /// another route
+    AutoTune(usize),
+    /// `clear()`: facts and indexes are gone
+    Clear,
 }
 
 impl std::fmt::Debug for AOp {
@@ -259,6 +264,8 @@ impl std::fmt::Debug for AOp {
             AOp::Insert(fs) => write!(f, "insert{}", show_set(fs, &AF)),
             AOp::Create(k) => write!(f, "create_index({})", AF[*k]),
             AOp::Drop(k) => write!(f, "drop_index({})", AF[*k]),
+            AOp::AutoTune(k) => write!(f, "51 x filter_tracked({}); auto_tune()", AF[*k]),
+            AOp::Clear => write!(f, "clear()"),
             AOp::Filter { f: k, v, tracked } => write!(f, "filter{}({}, {:?})", if *tracked { "_tracked" } else { "" }, AF[*k], v),
         }
     }
@@ -341,6 +348,17 @@ fn gen_alpha(s: &mut Src, exh: u32) -> Vec<AOp> {
         };
         ops.push(op);
     }
+    // drawn after the steps (earlier encodings keep their meaning): one history in four lets auto_tune create an index
+    // somewhere, one in eight clears the memory somewhere
+    if s.chance(1, 4) {
+        let pos = s.below(ops.len() + 1);
+        let f = s.weighted(&[6, 3, 1]);
+        ops.insert(pos, AOp::AutoTune(f));
+    }
+    if s.chance(1, 8) {
+        let pos = s.below(ops.len() + 1);
+        ops.insert(pos, AOp::Clear);
+    }
     ops
 }
 
@@ -376,6 +394,22 @@ pub fn run_alpha(s: &mut Src, ctx: &mut Ctx) -> Verdict {
                 if indexed.remove(f).is_some() {
                     dropped_once.insert(*f);
                 }
+            }
+            AOp::AutoTune(f) => {
+                let probe = FactValue::String("~warm-up".to_string());
+                for _ in 0..51 {
+                    let _ = mem.filter_tracked(AF[*f], &probe);
+                }
+                mem.auto_tune();
+                // whether an index exists now is the implementation's business; for the classification it is taken to exist
+                indexed.entry(*f).or_insert(facts.len());
+                ctx.label("alpha:auto_tune");
+            }
+            AOp::Clear => {
+                mem.clear();
+                facts.clear();
+                indexed.clear();
+                ctx.label("alpha:clear");
             }
             AOp::Filter { f, v, tracked } => {
                 let is_indexed = indexed.contains_key(f);
